@@ -15,6 +15,10 @@ RULE = (
     "signer with foreign nonces; shipped fixtures; each under several stdout encodings and pre-import sets. "
     "distinct = (mode, threshold, #authorized, state multiset, stratum, config); non-trivial = model says ACCEPT."
 )
+RULE_ADDENDUM = (
+    'Strata: accept / many signers / crowded / mixed, forced junk, permutations, thread schedules; library-made signatures, shipped fixtures, stored files in all JSON encodings.'
+)
+RULE = RULE + " " + RULE_ADDENDUM
 LIMITS = ["junk maps up to 10^4 entries only in the thorough tier", "GnuPG-made signatures are exercised in C10"]
 ASSUMPTIONS = ["reference ed25519 / canonical serializer / RFC 4880 digest are correct"]
 
